@@ -22,6 +22,7 @@ CONSTANTS D,        \* set of space dimensions, e.g. {1, 2}
           Side,     \* lattice points per axis
           Step,     \* lattice step
           QMargin,  \* the coordinates of the query point range over -QMargin..Step*(Side-1)+QMargin
+          MinPts,   \* minimum and
           MaxPts,   \* maximum number of points
           Orders    \* number of orderings of each point set (lattice order or an arithmetic shuffle)
 
@@ -77,7 +78,7 @@ MkCase(P, q) ==
        man |-> IF e1 THEN LET o == Ordered(P, q, ManDist) IN [ok |-> TRUE, order |-> o, d |-> [k \in 1..Len(o) |-> ManDist(P[o[k]], q)]]
                ELSE [ok |-> FALSE] ]
 
-Query == /\ phase = "build" /\ Len(pts) >= 1 /\ phase' = "done"
+Query == /\ phase = "build" /\ Len(pts) >= 1 /\ Len(pts) >= MinPts /\ phase' = "done"
          /\ \E q \in [1..dim -> QLo..QHi], o \in 0..(Orders - 1) :
               LET n == Len(pts)
                   h == o * 7 + LexRank(pts[n]) + 3 * n + (LET S[i \in 0..dim] == IF i = 0 THEN 0 ELSE S[i - 1] * 5 + q[i] - QLo IN S[dim])
